@@ -11,7 +11,7 @@ PYTHONPATH=$wt /venv/bin/python _seed/$k/demo.py > /tmp/demo_patched.log 2>&1; p
 t=$(PYTHONPATH=$wt /venv/bin/python -m pytest -q -p no:cacheprovider --timeout=900 --continue-on-collection-errors 2>&1 | tail -1)
 git checkout -q -- .
 echo "demo clean rc=$c  demo patched rc=$p  pytest: $t"
-if [ $c -ne 0 ] || [ $p -eq 0 ] || ! echo "$t" | grep -q "10 failed, 116 passed"; then echo "NOT CONFIRMED"; exit 3; fi
+if [ $c -ne 0 ] || [ $p -eq 0 ] || ! echo "$t" | grep -Eq "10 failed, 116 passed|2 failed, 124 passed"; then echo "NOT CONFIRMED"; exit 3; fi
 cd /verif
 if [ -n "$(git -C /repo status --porcelain)" ]; then echo "/repo dirty"; exit 2; fi
 git -C /repo apply $sd/patch.diff
